@@ -49,6 +49,7 @@ class _LibraryState:
     failure would depend on which runs happened to precede it and would not replay."""
 
     SKIP = (types.ModuleType, types.FunctionType, types.BuiltinFunctionType, type)
+    EXTRA_MODULES = ("picos.settings", "cvxpy.settings")
 
     _cache = {"n": -1, "targets": None, "functions": None}
 
@@ -66,7 +67,12 @@ class _LibraryState:
 
     def _targets_scan(self):
         for name, mod in list(sys.modules.items()):
-            if mod is None or not (name == "toqito" or name.startswith("toqito.")):
+            if mod is None:
+                continue
+            if name in self.EXTRA_MODULES:
+                yield mod  # process-global option modules of the solvers' front ends
+                continue
+            if not (name == "toqito" or name.startswith("toqito.")):
                 continue
             yield mod
             for v in list(vars(mod).values()):
